@@ -278,7 +278,8 @@ class SPARQLQueryHelper(object):
         if found_this:
             init_bindings['this'] = thisnode
 
-        if valuenode:
+        if valuenode is not None:
+            # (a literal such as false, 0 or "" is a value node too)
             found_value = self.bind_value_regex.search(new_query_text)
             if found_value:
                 init_bindings['value'] = valuenode
